@@ -69,12 +69,12 @@ HARNESSES += [
   grow('pb2_table', ('pb', 'pb'), True, 1, [sc2(7, 0, 2, PROBE=0, TABW=8), sc2(8, 0, 2, PROBE=0, TABW=8), sc2(7, 1, 2, PROBE=0, TABW=8)], tiers=('thorough',), timeout=3600),
   grow('gtal_pb', ('gtal', 'pb'), False, 1, [sc2(1, 0, 4, PROBE=0), sc2(0, 0, 4)], tiers=('thorough',), timeout=3600),
 ]
-def fsc(pre, op1, a1, fk, kmax, op2='pb', a2=0, nfollow=2, cap=32, maxidx=12, **kw):
-    d = dict(PRE=pre, OP1=KIND[op1], ARG1=a1, FK=fk, KMAX=kmax, OP2=KIND[op2], ARG2=a2, NFOLLOW=nfollow, CAP=cap, MAXIDX=maxidx, TABW=8); d.update(kw); return d
+def fsc(pre, op1, a1, fk, k, op2='pb', a2=0, nfollow=2, cap=32, maxidx=12, **kw):
+    d = dict(PRE=pre, OP1=KIND[op1], ARG1=a1, FK=fk, FAULTK=k, OP2=KIND[op2], ARG2=a2, NFOLLOW=nfollow, CAP=cap, MAXIDX=maxidx, TABW=8); d.update(kw); return d
 HARNESSES += [
-  dict(name='fault_seq', unit='fault', harness='h_fault.c', defines={'memset': 'vp_memset'}, cbmc=['--unwind', '30', '--object-bits', '10'], timeout=900,
+  dict(name='fault_seq', unit='fault', harness='h_fault.c', defines={'memset': 'vp_memset'}, cbmc=['--unwind', '70', '--object-bits', '10'], timeout=900,
        native_cflags=['-fno-sanitize=null'],
-       scenarios=[fsc(1, 'gb', 6, 1, 6)],
+       scenarios=[fsc(1, 'gb', 6, 1, k) for k in (1, 2)],
        desc='fault injection, single thread', bounds={}),
 ]
 MANIFEST = dict(
